@@ -37,8 +37,10 @@ def _inside_random_with_n(main_domain, domain_a, domain_b, n, params, invert, de
 
 
 def _random_points_if_n_eq_1(main_domain, domain_a, domain_b, params, invert, device):
-    final_points = torch.zeros((len(params), main_domain.dim), device=device)
-    found_valid = torch.zeros((len(params), 1), dtype=bool, device=device)
+    # without parameters one point is needed, else one point per parameter row
+    num_of_params = max(len(params), 1)
+    final_points = torch.zeros((num_of_params, main_domain.space.dim), device=device)
+    found_valid = torch.zeros((num_of_params, 1), dtype=bool, device=device)
     while not all(found_valid):
         new_points = domain_a.sample_random_uniform(n=1, params=params, device=device)
         index_valid = _check_in_b(domain_b, params, invert, new_points)
@@ -150,8 +152,10 @@ def _boundary_random_with_n(main_domain, domain_a, domain_b, n, params, device):
 
 
 def _random_boundary_points_if_n_eq_1(main_domain, domain_a, domain_b, params, device):
-    final_points = torch.zeros((len(params), main_domain.dim + 1), device=device)
-    found_valid = torch.zeros((len(params), 1), dtype=bool, device=device)
+    # without parameters one point is needed, else one point per parameter row
+    num_of_params = max(len(params), 1)
+    final_points = torch.zeros((num_of_params, main_domain.space.dim), device=device)
+    found_valid = torch.zeros((num_of_params, 1), dtype=bool, device=device)
     boundaries = [domain_a.boundary, domain_b.boundary]
     use_b = False
     while not all(found_valid):
